@@ -377,7 +377,7 @@ BENIGN = [
        "            initial_state = torch.randint(0, 2, (num_samples, self.num_visible)).to(\n                device=self.device, dtype=torch.double\n            )")),
     M("benign-conditional-out-of-place", ["C05", "C03", "C06"],
       (BR, "        return (\n            torch.matmul(v, self.weights.data.t(), out=out)\n            .add_(self.hidden_bias.data)\n            .sigmoid_()\n            .clamp_(min=0, max=1)\n        )",
-       "        res_ = torch.sigmoid(F.linear(v, self.weights.data, self.hidden_bias.data))\n        if out is not None:\n            out.copy_(res_)\n            return out\n        return res_")),
+       "        res_ = torch.sigmoid(F.linear(v, self.weights.data, self.hidden_bias.data))\n        if out is not None:\n            if out.shape != res_.shape:\n                out.resize_(res_.shape)  # what matmul(out=) does for a 1-D work buffer\n            out.copy_(res_)\n            return out\n        return res_")),
     M("benign-modelsaver-copies-dict", ["C17", "C11"], (MS, "            metadata = self.metadata\n", "            metadata = dict(self.metadata)\n")),
     M("benign-callbacklist-iter-copy", ["C12", "C17", "C18"],
       ("qucumber/callbacks/callback_list.py", "    def on_batch_end(self, rbm, epoch, batch):\n        for cb in self.callbacks:", "    def on_batch_end(self, rbm, epoch, batch):\n        for cb in list(self.callbacks):")),
